@@ -255,8 +255,11 @@ def run(ctx: Ctx):
         kd = [n for n in g.nodes if n.kind == "stmt" and isinstance(n.ast, ast.Assign)
               and any(A.dotted(t) == kv for t in n.ast.targets)]
         key_fields = _fields(kd[0].ast.value) if kd else None
-        if key_fields != ["hop_by_hop_identifier", ":", "end_to_end_identifier"]:
-            ctx.fail(cons, g.loc(pend[0]), f"the pending key is not 'hop-by-hop:end-to-end' ({key_fields})")
+        if key_fields != ["ident", ":", "hop_by_hop_identifier", ":", "end_to_end_identifier"]:
+            ctx.fail(cons, g.loc(pend[0]), f"the pending key is not '<connection ident>:hop-by-hop:"
+                     f"end-to-end' ({key_fields}): hop-by-hop identifiers are unique per connection "
+                     f"only, and a record that does not name its connection cannot be dropped when "
+                     f"the connection goes away (one record for ever per unanswered request)")
         if hb and not g.can_reach(hb[0], pend[0]):
             ctx.fail(cons + "#order", g.loc(pend[0]), "the pending key is built before the hop-by-hop "
                      "identifier has been assigned")
@@ -329,6 +332,17 @@ def run(ctx: Ctx):
                     and n.func.attr in ("pop", "popitem", "clear") \
                     and "_app_waiting_answer" in ast.unparse(n.func.value):
                 hit = True
+            if hit and f_.name == "remove_peer_connection":
+                # the removed connection's own records: their answers can no longer arrive
+                par_ = A.parents(f_.node)
+                x, own = n, False
+                while x in par_:
+                    x = par_[x]
+                    if isinstance(x, ast.If) and ".startswith(" in ast.unparse(x.test) \
+                            and ".ident" in ast.unparse(x.test):
+                        own = True
+                if own:
+                    continue
             if hit:
                 ctx.fail(cons, f_.loc(n), f"{f_.qualname} removes the record that maps an outstanding "
                          f"request to its application (`{ast.unparse(n)[:60]}`): an answer arriving "
